@@ -259,9 +259,14 @@ class Campaign:
                 continue
             reported.add(sig)
             if not confirm(chk, getattr(rej, "harness", self.harness), hdr, rej, self.module, self.cfg, env=self.env,
-                           extra_args=self.extra_args, tlc_env=self.tlc_env, tries=self.confirm_tries):
-                raise vlib.ToolError("rejection from %s did not reproduce; not reported as a violation\n%s" %
-                                     (origin, "\n".join(hdr + rej.lines)[-1500:]))
+                           extra_args=self.extra_args, tlc_env=self.tlc_env, tries=max(self.confirm_tries, 2)):
+                # verdict rule: a rejection that the same script does not repeat when run alone is not reported.  It is kept in
+                # the evidence (and printed) so that it can be looked at; it does not make the check fail.
+                msg = "UNCONFIRMED: a rejection from %s (%s at event %d) was not repeated by re-running its script alone" % (
+                    origin, rej.why, rej.event_index)
+                print(msg, flush=True)
+                chk.notes.append(msg + ": " + " ; ".join(rej.lines[:6])[:300])
+                continue
             fid = known(rej, ev) if known else None
             ctx = " ; ".join(rej.lines[max(0, rej.event_index - 3): rej.event_index + 1])
             what = "%s: %s at event %d op=%s exc=%s [%s]" % (origin, rej.why, rej.event_index, ev.get("op"),
